@@ -95,6 +95,8 @@ for m in ("KL_divergence", "vote_entropy", "variation_ratios"):
     _add(f"QueryByCommittee:{m}", "QueryByCommittee", {"method": m}, ["rf_ens", "list_ens"])
 _add("QueryByCommittee:reg", "QueryByCommittee", {}, ["rf_reg_ens", "list_reg_ens"], task="reg")
 _add("Quire", "Quire", {"classes": [0, 1]}, heavy=True)
+# the caller hands in a kernel matrix (n x n, float64) instead of features
+_add("Quire:precomputed", "Quire", {"classes": [0, 1], "metric": "precomputed"}, heavy=True, kernel_X=True, no14=True)
 _add("FourDs", "FourDs", {}, ["mixture"], heavy=True)
 _add("CostEmbeddingAL", "CostEmbeddingAL", {"classes": [0, 1]}, heavy=True)
 _add("ExpectedModelChangeMaximization", "ExpectedModelChangeMaximization", {}, ["lin"], task="reg")
@@ -118,6 +120,8 @@ _add("TypiClust", "TypiClust", {}, clusterer=True)
 _add("TypiClust:seeded", "TypiClust", {"cluster_algo_dict": {"random_state": 0, "n_init": 1}, "k": 3})
 _add("ProbCover", "ProbCover", {}, clusterer=True)
 _add("ProbCover:seeded", "ProbCover", {"cluster_algo_dict": {"random_state": 0, "n_init": 1}, "n_classes": 2})
+# array-valued constructor parameter owned by the caller (unsorted on purpose)
+_add("ProbCover:deltas", "ProbCover", {"deltas": {"nd": [1.5, 0.25, 3.0, 0.75]}, "cluster_algo_dict": {"random_state": 0, "n_init": 1}, "n_classes": 2}, no14=True)
 _add("Badge", "Badge", {}, ["lr", "pwc"])
 _add("ContrastiveAL", "ContrastiveAL", {}, ["pwc", "gnb"])
 _add("Falcun", "Falcun", {}, ["pwc", "gnb"])
@@ -155,7 +159,7 @@ def build_strategy(entry_key, seed, overrides=None):
         inner_seed = seed if isinstance(seed, int) else 0
         kw["query_strategy"] = build_strategy(e["flags"]["wrap"], inner_seed)
     # deep-ish copy of dict params so that caller-owned dicts are fresh per object
-    kw = {k: (dict(v) if isinstance(v, dict) else (list(v) if isinstance(v, list) else v)) for k, v in kw.items()}
+    kw = {k: (np.array(v["nd"], dtype=float) if isinstance(v, dict) and set(v) == {"nd"} else (dict(v) if isinstance(v, dict) else (list(v) if isinstance(v, list) else v))) for k, v in kw.items()}
     if overrides:
         kw.update(overrides)
     kw["random_state"] = seed
